@@ -514,7 +514,13 @@ class UndefinedMessage(Message):
                     value = avp_value
                 else:
                     value = UndefinedGroupedAvp()
-                    self._assign_attr_values(value, avp_value)
+                    try:
+                        self._assign_attr_values(value, avp_value)
+                    except RecursionError:
+                        # groups nested deeper than the interpreter can follow
+                        # are not exposed as attributes (they remain in `avps`);
+                        # the message is still a message
+                        value = None
 
             if hasattr(parent, attr_name):
                 existing_attr = getattr(parent, attr_name)
